@@ -13,7 +13,9 @@ InitsKV == {
   St(Full, <<>>, FALSE, NoSnaps),
   St(V({<<kA0, "1">>, <<kF, "">>}), <<OpPut(kA, "1"), OpDel(kA)>>, FALSE, Snap1({<<kA, "">>, <<kA0, "1">>})),
   St(V({<<kAF, "">>, <<kB, "1">>, <<kFF, "1">>}), <<OpDel(kFF), OpPut(kFF, "")>>, FALSE, NoSnaps),
-  St(V({<<kA, "">>, <<kAF, "1">>, <<kFF, "1">>}), <<OpPut(kAF, "")>>, TRUE, Snap1({<<kAF, "1">>, <<kB, "1">>, <<kF, "">>}))
+  St(V({<<kA, "">>, <<kAF, "1">>, <<kFF, "1">>}), <<OpPut(kAF, "")>>, TRUE, Snap1({<<kAF, "1">>, <<kB, "1">>, <<kF, "">>})),
+  \* a written, not yet reset batch whose effect is still what the store holds
+  St(V({<<kA, "1">>, <<kB, "">>, <<kFF, "2">>}), <<OpPut(kA, "1"), OpPut(kFF, "2")>>, TRUE, NoSnaps)
 }
 InitsSmall == {
   EmptyState,
